@@ -201,7 +201,9 @@ class Seam:
             fr = seam.fail_read
             if fr is not None and not isinstance(file, int) and not any(c in mode for c in "wax+") and seam.inscope(file):
                 p = PROC.get()
-                if p is not None and p.role == fr[0] and os.path.basename(os.fspath(file)) == fr[1]:
+                if p is not None and p.role == fr[0] and os.path.basename(os.fspath(file)) == fr[1] and len(fr) > 2 and fr[2] > 0:
+                    seam.fail_read = (fr[0], fr[1], fr[2] - 1)  # not this read yet: the (skip+1)-th matching read fails
+                elif p is not None and p.role == fr[0] and os.path.basename(os.fspath(file)) == fr[1]:
                     # injected system-call failure: one read-open of this file fails (EMFILE), once
                     seam.fail_read = None
                     seam.sim.count("read_error")
